@@ -9,7 +9,8 @@ StepCurve(e)   == e.ev = "curve" /\ Report(e.case, CurveFails(e), [kind |-> e.ki
 StepEq(e)      == e.ev = "eq" /\ Report(e.case, EqFails(e), [what |-> e.what])
 StepConfine(e) == e.ev = "confine" /\ Report(e.case, ConfineFails(e), [size |-> e.size, rout |-> e.rout])
 StepAng(e)     == e.ev = "ang" /\ Report(e.case, AngFails(e), [kind |-> e.kind, d |-> e.d, a0 |-> e.a0, sw |-> e.sw])
-StepPanic(e)   == e.ev = "panic"
+\* a library call of this case panicked: the property promises a result for every input of its domain
+StepPanic(e) == e.ev = "panic" /\ Report(e.case, {"library_call_panicked"}, [msg |-> e.msg, loc |-> e.loc])
 Next == /\ l <= NRec
         /\ LET e == Rec[l] IN StepCase(e) \/ StepCurve(e) \/ StepEq(e) \/ StepConfine(e) \/ StepAng(e) \/ StepPanic(e)
         /\ l' = l + 1
